@@ -164,11 +164,32 @@ class Known:
             g = [sorted(set(g[0]) | set(range(1, len(g))))] + g[1:]
         return bool(self.model.call({"cmd": "depth", "kind": "macro", "graph": g}).get("known"))
 
-    def literal_values(self, files, pattern):
+    def const_env(self, files):
+        """constants / variables of the program that can be evaluated without labels (what pass 0, which has no segment and
+        therefore defines no label, can evaluate); scoping is ignored (over-approximation: first definition wins)"""
+        defs = []
+        for t in files.values():
+            for m in re.finditer(r"\.(?:const|var)\s+([A-Za-z_][A-Za-z0-9_]*)\s*=\s*([^\n{}]+)", self.strip(t), flags=re.I):
+                defs.append((m.group(1), m.group(2).strip()))
+        env = {}
+        for _ in range(4):
+            for name, expr in defs:
+                if name in env:
+                    continue
+                r = self.model.call({"cmd": "stmt", "kind": "value", "prefix": True, "text": T(expr),
+                                     "env": {"syms": [[[T(k)], str(v)] for k, v in env.items()], "pc": None}})
+                v = r.get("value")
+                if isinstance(v, int) or isinstance(v, str) and re.fullmatch(r"-?\d+", v):
+                    env[name] = int(v)
+        return env
+
+    def literal_values(self, files, pattern, env=None):
         vals = []
+        syms = [[[T(k)], str(v)] for k, v in (env or {}).items()]
         for t in files.values():
             for m in re.finditer(pattern, self.strip(t), flags=re.I):
-                r = self.model.call({"cmd": "stmt", "kind": "value", "text": T(m.group(1).strip()), "env": {"syms": [], "pc": PC0}})
+                r = self.model.call({"cmd": "stmt", "kind": "value", "prefix": True, "text": T(m.group(1).strip()),
+                                     "env": {"syms": syms, "pc": None if env is not None else PC0}})
                 v = r.get("value")
                 if isinstance(v, int):
                     vals.append(v)
@@ -188,6 +209,9 @@ class Known:
         """some `* =` value v, segment start s and segment pc t of the program (defaults: the default segment) satisfy
         Known_pc_out_of_range v s t; a value that cannot be evaluated from the text alone counts as unknown = possible"""
         star = self.literal_values(files, r"\*\s*=\s*([^\n{}]+)")
+        # the branch arm uses the branch target as the pc while no segment exists
+        # (evaluated as pass 0 does: constants known, `*` = 0, labels unknown -> not evaluable -> nothing emitted, no panic)
+        star += [v for v in self.literal_values(files, r"\b(?:bcc|bcs|beq|bmi|bne|bpl|bvc|bvs)\s+([^\n{}/]+)", env=self.const_env(files)) if v is not None]
         starts = self.literal_values(files, r"\bstart\s*=\s*([^\n{}]+?)(?=\s+(?:pc|write|bank|name)\s*=|\s*\}|\n)")
         pcs = self.literal_values(files, r"\bpc\s*=\s*([^\n{}]+?)(?=\s+(?:start|write|bank|name)\s*=|\s*\}|\n)")
         if None in star or None in starts or None in pcs:
@@ -216,6 +240,8 @@ class Known:
                 return "Known_bank_size_huge"
         if kind == "hang" and self.loop_huge(files):
             return "Known_loop_count_huge"
+        if kind == "hang" and self.bank_huge(files):
+            return "Known_bank_size_huge"
         if kind == "panic" and self.pc_out_of_range(files):
             return "Known_pc_out_of_range"
         return None
@@ -523,6 +549,18 @@ class Run:
             pred = self.stmt_prediction("pc", text, initial=PC0, target=PC0)
             reply, fails = self.case("sweep_pc", {"main.asm": prog})
             self.expect("sweep_pc", {"main.asm": prog}, reply, fails, pred, "`* = %s` then nop" % text)
+        # ---- branch targets (segment-less pass 0 uses the target as the base of `+ 2`)
+        for v in [x for x in vals if I64_MIN <= x <= I64_MAX] + [-2, -3, -128]:
+            prog = "bcc %s\n" % lit(v)
+            r = self.model.call({"cmd": "branch", "target": str(v)})                       # pass 0: no segment yet
+            if r["r"] != "panic":
+                r = self.model.call({"cmd": "branch", "target": str(v), "cur": str(PC0)})    # later passes
+            reply, fails = self.case("sweep_branch", {"main.asm": prog})
+            if reply is not None and not reply.get("crash") and not reply.get("hang"):
+                cls, det = stage_outcome(reply.get("codegen"), later_stages=False)
+                self.bump("predicted:" + ("panic" if r["r"] == "panic" else "ok"))
+                if (r["r"] == "panic") != (cls == "panic"):
+                    self.chk.tie_break("correspondence:site", "`bcc %d`: model predicts %s for the branch arithmetic, implementation %s" % (v, r["r"], cls), {"files": {"main.asm": prog}})
         # ---- segment options start / pc
         opts = [v for v in vals if I64_MIN <= v <= I64_MAX]
         combos = [(s, p) for s in opts for p in opts]
@@ -535,8 +573,9 @@ class Run:
         # ---- bank options size / fill: the model predicts diagnostic / padding size; beyond 2^30 bytes of padding it is the known finding
         for v in opts:
             for fill in (True, False):
-                if v > 2 ** 33 and fill and self.dist.get("bank_huge_runs", 0) >= 2:
-                    continue                 # each of these costs an aborted child (allocation failure)
+                if fill and self.model.call({"cmd": "bank", "size": str(v), "len": "1", "fill": True}).get("known") and \
+                        (v < 2 ** 40 or self.dist.get("bank_huge_runs", 0) >= 2):
+                    continue                 # gigabytes of padding are slow; terabytes fail at once (two aborted children are enough)
                 prog = '.define bank { name = "b" size = %s%s }\n.define segment { name = "a" start = $1000 bank = "b" }\nnop\n' % (lit(v), " fill = 7" if fill else "")
                 r = self.model.call({"cmd": "bank", "size": str(v), "len": "1", "fill": fill})
                 if r["r"] == "ok" and r.get("known"):
